@@ -707,7 +707,7 @@ fn run_case(cx: &mut Ctx, c: &Value, force: bool) {
             let cell = if level >= 5 { format!("five_level/AdaptiveFiveLevelPool{}", if is_tl { "(ThreadLocal)" } else { "" }) }
                        else { format!("five_level/{}", ["NoLockingPool", "MutexBasedPool", "LockFreePool", "ThreadLocalPool", "FixedCapacityPool"][level as usize]) };
             cx.sum.eval(&cell, &key, nontrivial);
-            if is_tl { cx.sum.cell_status(&cell, "S-only"); }
+            // level 4 is modelled as it is (refutation theorem five_tl_offset_alias_refuted); its overlaps are a listed finding
             // the model's configuration: the FixedCapacityPool owns max_capacity = fixed_capacity.unwrap_or(initial_capacity)
             let mcap = if kind == Some(4) { cfg.fixed_capacity.unwrap_or(cfg.initial_capacity) } else { cfg.initial_capacity };
             let mcfg = format!("(mkFC {} {} {} {})", ["KNoLock", "KMutex", "KLockFree", "KMutex", "KFixedCap"][kind.unwrap_or(0) as usize], cfg.alignment, mcap, cfg.max_fast_block_size);
@@ -715,14 +715,25 @@ fn run_case(cx: &mut Ctx, c: &Value, force: bool) {
             let p = match made { Ok(Ok(p)) => p,
                 Ok(Err(_)) => { cx.sum.dist("pool_new_refused");
                                 if modelled && cx.room("five", force) { cx.shards.push(format!("X5 {} false false [] []", mcfg), c.clone()); }
+                                if is_tl && cx.room("five", force) { cx.shards.push(format!("X5T {} {} false [] []", mcfg, cfg.arena_size), c.clone()); }
                                 return; }
                 Err(p) => { cx.sum.fail(&cell, None, c.clone(), &format!("constructor panicked: {}", p)); return; } };
             let cap = match (&p, cfg.fixed_capacity) { (Five::L5(_), Some(f)) => f, (Five::L4(_), _) => cfg.initial_capacity.max(cfg.arena_size),
                                                         (Five::Ad(_), f) => cfg.initial_capacity.max(cfg.arena_size).max(f.unwrap_or(0)), _ => cfg.initial_capacity };
             let alias = five_tl_alias_class(is_tl, &cfg, &ops);
             let direct_fixed = matches!(&p, Five::L5(_));
+            let arena_size = cfg.arena_size;
             let mut put = FivePut { p, cfg, cap, h: HashMap::new(), alias, stats: vec![] };
             if let Some(obs) = drive(cx, &cell, c, &mut put, &ops) {
+                if is_tl && cx.room("five", force) {
+                    // level 4: offsets only (histories in which the two offset spaces collide stop at the oracle: known finding)
+                    let mut cops = vec![]; let mut exp = vec![];
+                    for (o, r) in ops.iter().zip(obs.iter()) {
+                        match o[0] { 0 => cops.push(format!("A5 {}", o[1])), 1 => cops.push(format!("F5 {}", o[1])), _ => continue }
+                        exp.push(coq_oz(r));
+                    }
+                    cx.shards.push(format!("X5T {} {} true [{}] [{}]", mcfg, arena_size, cops.join("; "), exp.join("; ")), c.clone());
+                }
                 if modelled && put.stats.len() == ops.len() && cx.room("five", force) {
                     let mut cops = vec![]; let mut exp = vec![];
                     for ((o, r), st) in ops.iter().zip(obs.iter()).zip(put.stats.iter()) {
